@@ -27,10 +27,10 @@ type Effects struct {
 	AllowDynamic func(t types.Type) bool
 	// FollowCallResults: treat a pointer-like call result as possibly aliasing the call's pointer-like arguments
 	FollowCallResults bool
-	W     *World
-	memo  map[slot]int // 0 unknown, 1 in progress, 2 false, 3 true
-	why   map[slot]string
-	wherePos map[slot]token.Pos
+	W                 *World
+	memo              map[slot]int // 0 unknown, 1 in progress, 2 false, 3 true
+	why               map[slot]string
+	wherePos          map[slot]token.Pos
 }
 
 func NewEffects(w *World) *Effects {
